@@ -195,7 +195,7 @@ func runOne(in RunInput, scratch string) (RunObs, string) {
 	var ob RunObs
 	l, err := lab.Start(mkToml(in), scratch)
 	if err != nil {
-		return ob, "lab start: " + err.Error()
+		hx.Fatal("lab start: %v", err)
 	}
 	defer l.Stop()
 	if !l.Started() {
